@@ -84,6 +84,33 @@ def is_pure(e):
     return False
 
 
+# set by loader.Index: the names of all functions defined anywhere in the analysed tree (None: not known, so every name may be)
+REPO_DEFINED = [None]
+
+
+def builtin_only(name):
+    """True when no module of the analysed tree defines a function / method with this name, so that `x.name(..)` can only be the
+    standard library's"""
+    return REPO_DEFINED[0] is not None and name not in REPO_DEFINED[0]
+
+
+def known_str(e):
+    """expressions that can only evaluate to a str"""
+    if isinstance(e, ast.Constant):
+        return isinstance(e.value, str)
+    if isinstance(e, ast.JoinedStr):
+        return True
+    if isinstance(e, ast.Call):
+        f = e.func
+        if isinstance(f, ast.Name) and f.id in ('str', 'repr', 'chr', 'ascii', 'hex', 'oct', 'bin'):
+            return True
+        if isinstance(f, ast.Attribute) and f.attr == 'decode' and builtin_only('decode'):
+            return True         # bytes.decode / bytearray.decode
+        if isinstance(f, ast.Attribute) and f.attr in ('join', 'format') and isinstance(f.value, ast.Constant) and isinstance(f.value.value, str):
+            return True
+    return False
+
+
 def chain(e):
     """('self', 'a', 'b') for self.a.b ; subscripts end the chain (the container is what is read)"""
     parts = []
@@ -160,6 +187,9 @@ def written_chains(st):
                 c = chain(n.func.value)
                 if c is not None:
                     out.add(c)
+            if isinstance(n.func, ast.Attribute) and n.func.attr == 'extend' and builtin_only('extend'):
+                # list / bytearray / deque .extend only iterates its argument (no class of the package defines `extend`)
+                continue
             for a in list(n.args) + [k.value for k in n.keywords]:
                 if isinstance(a, ast.Starred):
                     a = a.value
@@ -391,6 +421,66 @@ def inline_expression_helpers(func, helpers):
     return changed[0]
 
 
+def hoist_helper_calls(func, helpers, counter):
+    """`x = g(helper(a))` -> `t = helper(a); x = g(t)` when nothing but names and constants is evaluated before the call in
+    that statement (so moving the call to the front changes no order of effects); inline_helpers then pastes the helper."""
+    changed = False
+    for owner, block in _all_blocks(func):
+        i = 0
+        while i < len(block):
+            st = block[i]
+            i += 1
+            if isinstance(st, (ast.Assign, ast.Return, ast.Expr)) or isinstance(st, ast.AugAssign) and isinstance(st.target, ast.Name):
+                value = st.value
+            else:
+                continue
+            if value is None:
+                continue
+            top = value.value if isinstance(value, ast.Yield) and isinstance(st, ast.Expr) else value
+            order = eval_order(value)
+            for k, x in enumerate(order):
+                if x is top or not isinstance(x, ast.Call):
+                    continue
+                f = x.func
+                if isinstance(f, ast.Name) and f.id in helpers and not helpers[f.id][1]:
+                    pass
+                elif isinstance(f, ast.Attribute) and isinstance(f.value, ast.Name) and f.value.id == 'self' and f.attr in helpers and helpers[f.attr][1]:
+                    pass
+                else:
+                    continue
+                inside = {id(n) for n in ast.walk(x)}
+                h = helpers[f.id if isinstance(f, ast.Name) else f.attr][0]
+                static = any(isinstance(d, ast.Name) and d.id == 'staticmethod' for d in h.decorator_list)
+                # what the call may change: its whole-object arguments and, unless static, its receiver
+                w = set()
+                if isinstance(f, ast.Attribute) and not static:
+                    w.add(chain(f.value))
+                for a_ in list(x.args) + [k_.value for k_ in x.keywords]:
+                    c_ = chain(a_) if isinstance(a_, (ast.Name, ast.Attribute)) else None
+                    if c_ is not None:
+                        w.add(c_)
+
+                def harmless(y):
+                    if isinstance(y, (ast.Name, ast.Constant)):
+                        return True
+                    if isinstance(y, ast.Attribute):
+                        c_ = chain(y)
+                        return c_ is not None and not any(_prefix(c_, b_) for b_ in w)
+                    return False
+                if not all(id(y) in inside or harmless(y) for y in order[:k]):
+                    break
+                counter[0] += 1
+                tmp = f'__hc{counter[0]}'
+                _replace_node(st, x, ast.copy_location(ast.Name(id=tmp, ctx=ast.Load()), x))
+                a = ast.copy_location(ast.Assign(targets=[ast.Name(id=tmp, ctx=ast.Store())], value=x), st)
+                ast.fix_missing_locations(a)
+                block.insert(i - 1, a)
+                i += 1
+                changed = True
+                break
+    return changed
+
+
 def inline_helpers(func, helpers, counter):
     """helpers: name -> (FunctionDef, is_method).  Calls `self.name(args)` / `name(args)` / `Cls.name(args)` that form a whole
     statement (expression statement, assignment value, return value) are replaced by the helper's body."""
@@ -530,12 +620,44 @@ class _ExprRewrite(ast.NodeTransformer):
                 and isinstance(node.args[1], ast.Name) and node.args[1].id == 'self' and isinstance(node.args[0], ast.Name) and node.args[0].id == _CLASS[0]:
             node.args = []
             return node
+        if isinstance(node.func, ast.IfExp):
+            # (F if c else G)(args): c, then the chosen function, then the arguments - as in F(args) if c else G(args)
+            fe = node.func
+            return ast.copy_location(ast.IfExp(test=fe.test, body=ast.Call(func=fe.body, args=node.args, keywords=node.keywords),
+                                               orelse=ast.Call(func=fe.orelse, args=copy.deepcopy(node.args), keywords=copy.deepcopy(node.keywords))), node)
+        if isinstance(node.func, ast.Attribute) and node.func.attr == 'get' and isinstance(node.func.value, ast.Name) and node.func.value.id in _DICTS[0] \
+                and len(node.args) in (1, 2) and not node.keywords and all(is_pure(a) and not isinstance(a, ast.Starred) for a in node.args):
+            # D.get(k, d) on a module-level dict display is D[k] if k in D else d
+            d_, k_ = node.func.value, node.args[0]
+            dflt = node.args[1] if len(node.args) == 2 else ast.Constant(value=None)
+            return ast.copy_location(ast.IfExp(test=ast.Compare(left=k_, ops=[ast.In()], comparators=[d_]),
+                                               body=ast.Subscript(value=copy.deepcopy(d_), slice=copy.deepcopy(k_), ctx=ast.Load()), orelse=dflt), node)
         f = _fstring_of_format(node)
         return self.visit(f) if f is not None else node
+
+    def visit_Attribute(self, node):
+        self.generic_visit(node)
+        if isinstance(node.ctx, ast.Load) and isinstance(node.value, ast.IfExp):
+            fe = node.value
+            return ast.copy_location(ast.IfExp(test=fe.test, body=ast.Attribute(value=fe.body, attr=node.attr, ctx=ast.Load()),
+                                               orelse=ast.Attribute(value=fe.orelse, attr=node.attr, ctx=ast.Load())), node)
+        return node
+
+    def visit_Subscript(self, node):
+        self.generic_visit(node)
+        if isinstance(node.ctx, ast.Load) and isinstance(node.value, ast.IfExp):
+            fe = node.value
+            return ast.copy_location(ast.IfExp(test=fe.test, body=ast.Subscript(value=fe.body, slice=node.slice, ctx=ast.Load()),
+                                               orelse=ast.Subscript(value=fe.orelse, slice=copy.deepcopy(node.slice), ctx=ast.Load())), node)
+        return node
 
     def visit_BinOp(self, node):
         self.generic_visit(node)
         # 'text %s and %r' % (a, b) with a tuple display of the right size is the f-string with !s / !r fields
+        if isinstance(node.op, ast.Mod) and isinstance(node.left, ast.Constant) and isinstance(node.left.value, str) and not isinstance(node.right, ast.Tuple) \
+                and known_str(node.right):
+            # a single operand that cannot be a tuple or a mapping is the 1-tuple of it
+            node.right = ast.copy_location(ast.Tuple(elts=[node.right], ctx=ast.Load()), node.right)
         if isinstance(node.op, ast.Mod) and isinstance(node.left, ast.Constant) and isinstance(node.left.value, str) and isinstance(node.right, ast.Tuple) \
                 and not any(isinstance(e, ast.Starred) for e in node.right.elts):
             import re as _re
@@ -570,6 +692,9 @@ class _ExprRewrite(ast.NodeTransformer):
                 and node.value.func.id in ('str', 'repr') and len(node.value.args) == 1 and not node.value.keywords:
             node.conversion = 115 if node.value.func.id == 'str' else 114
             node.value = node.value.args[0]
+        # {x!s} of something that is a string is {x}
+        if node.conversion == 115 and known_str(node.value):
+            node.conversion = -1
         # a literal formatted with a literal specification is a literal
         if isinstance(node.value, ast.Constant) and isinstance(node.value.value, (str, int, float)) and not isinstance(node.value.value, bool) \
                 and node.conversion == -1 and (node.format_spec is None or isinstance(node.format_spec, ast.Constant)):
@@ -811,6 +936,53 @@ def inline_next_use(func):
     return changed
 
 
+def fold_flag_reads(func):
+    """A local bound once, to a truth value (`b = x == y`), and tested by `if b:` is True in that branch and False in the other:
+    reads of it there are replaced by the literal.  A plain assignment that follows the `if` and reads b is first copied to
+    the end of each branch that can fall through (it runs after either)."""
+    params, stores, loads = _defs_and_uses(func)
+    flags = set()
+    for name, st_nodes in stores.items():
+        if name in params or len(st_nodes) != 1 or not isinstance(st_nodes[0], ast.Name) or _has_nested_scope_use(func, name):
+            continue
+        flags.add(name)
+    if not flags:
+        return False
+    defs = {}
+    for n in ast.walk(func):
+        if isinstance(n, ast.Assign) and len(n.targets) == 1 and isinstance(n.targets[0], ast.Name) and n.targets[0].id in flags:
+            defs[n.targets[0].id] = n
+    flags = {f for f in flags if f in defs and _is_boolean(defs[f].value) and not isinstance(defs[f].value, ast.Constant)}
+    changed = False
+    for owner, block in _all_blocks(func):
+        for i, st in enumerate(block):
+            if not isinstance(st, ast.If):
+                continue
+            t, neg = st.test, False
+            if isinstance(t, ast.UnaryOp) and isinstance(t.op, ast.Not):
+                t, neg = t.operand, True
+            if not (isinstance(t, ast.Name) and t.id in flags):
+                continue
+            name = t.id
+            if any(n is defs[name] for n in ast.walk(st)):
+                continue
+            nxt = block[i + 1] if i + 1 < len(block) else None
+            if isinstance(nxt, ast.Assign) and is_pure(nxt.value) and all(is_pure(x) for x in nxt.targets) and _name_nodes(nxt.value, name) \
+                    and not any(isinstance(x, ast.Lambda) for x in ast.walk(nxt.value)):
+                for br in (st.body, st.orelse):
+                    if not _always_leaves(br):
+                        br.append(copy.deepcopy(nxt))
+                del block[i + 1]
+                changed = True
+            for br, val in ((st.body, not neg), (st.orelse, neg)):
+                for b_st in br:
+                    uses = [n for n in _name_nodes(b_st, name) if isinstance(n.ctx, ast.Load)]
+                    for u in uses:
+                        _replace_node(b_st, u, ast.copy_location(ast.Constant(value=val), u))
+                        changed = True
+    return changed
+
+
 def assignments_to_ifexp(func):
     """`if c: t = A else: t = B`  and  `t = B; if c: t = A`  (t a local name, B free of side effects) become
     `t = A if c else B`; `a, b = x, y` (no target read on the right) becomes `a = x; b = y`; `a = b = v` (v a constant)
@@ -935,7 +1107,15 @@ def sink_constant_inits(func):
             for part in [h.body for h in t.handlers] + [t.finalbody]:
                 for s_ in part:
                     in_handlers |= {n.id for n in ast.walk(s_) if isinstance(n, ast.Name)}
+    # inside the body of a try statement an exception may skip the initialisation and the code after the handlers read the name
+    in_try = set()
+    for t in ast.walk(func):
+        if isinstance(t, ast.Try):
+            for s_ in t.body:
+                in_try |= {id(n) for n in ast.walk(s_)}
     for owner, block in _all_blocks(func):
+        if block and id(block[0]) in in_try:
+            continue
         i = len(block) - 1
         while i >= 0:
             st = block[i]
@@ -950,7 +1130,9 @@ def sink_constant_inits(func):
                     if any(isinstance(n, ast.Name) and n.id == x for n in ast.walk(block[k])) or any(isinstance(n, ast.ExceptHandler) and n.name == x for n in ast.walk(block[k])):
                         j = k
                         break
-                if j is not None and j > i + 1:
+                # a statement in between that can leave the block (continue / break / return) would skip the initialisation: the
+                # next iteration, or the code after the loop, could then see the previous value
+                if j is not None and j > i + 1 and not any(isinstance(n, (ast.Continue, ast.Break, ast.Return, ast.Yield, ast.YieldFrom)) for b_ in block[i + 1:j] for n in ast.walk(b_)):
                     block.insert(j - 1, block.pop(i))
                     changed = True
             i -= 1
@@ -1944,14 +2126,25 @@ def cx(e):
         return '*' + cx(e.value)
     if isinstance(e, ast.JoinedStr):
         parts = []
+        lit = []
+
+        def flush():
+            if lit:
+                parts.append('c' + repr(''.join(lit)))
+                del lit[:]
         for v in e.values:
             if isinstance(v, ast.Constant):
-                parts.append('c' + repr(v.value))
+                lit.append(v.value)
+            elif isinstance(v.value, ast.Constant) and isinstance(v.value.value, str) and v.conversion == -1 and v.format_spec is None:
+                # a string literal that reached the field by substitution (a helper's parameter) is literal text
+                lit.append(v.value.value)
             else:
+                flush()
                 spec = ''
                 if v.format_spec is not None:
                     spec = cx(v.format_spec)
                 parts.append(f'{{{cx(v.value)}!{v.conversion}:{spec}}}')
+        flush()
         return '(fstr ' + ' '.join(parts) + ')'
     if isinstance(e, ast.FormattedValue):
         return f'{{{cx(e.value)}!{e.conversion}:{cx(e.format_spec)}}}'
@@ -2202,7 +2395,7 @@ def seq(stmts, k, budget):
         return _atoms(st.test, seq(st.body, rest, budget), seq(st.orelse, rest, budget), budget)
     rest = seq(stmts[1:], k, budget)
     if isinstance(st, ast.Assign) and len(st.targets) == 1 and isinstance(st.targets[0], ast.Name) and st.targets[0].id.startswith(MARK) and _NO_CLOSURES[0] \
-            and isinstance(st.value, ast.Constant) and st.targets[0].id not in _HANDLER_READS[0]:
+            and isinstance(st.value, ast.Constant) and st.targets[0].id not in _HANDLER_READS[0] and st.targets[0].id in _TREE_SAFE[0]:
         # a local set to a literal: the literal is written where the local is read, on every path up to its next assignment
         # (the continuation is a tree, so each read has this one definition)
         done = _subst_const(rest, st.targets[0].id, cx(st.value))
@@ -2211,7 +2404,7 @@ def seq(stmts, k, budget):
             return done
     if isinstance(st, ast.Assign) and len(st.targets) == 1 and isinstance(st.targets[0], ast.Name) and st.targets[0].id.startswith(MARK) and _NO_CLOSURES[0] \
             and len(rest) == 1 and rest[0][0] == 'if' and rest[0][1] == st.targets[0].id and st.targets[0].id not in repr(rest[0][2]) + repr(rest[0][3]) \
-            and st.targets[0].id not in _HANDLER_READS[0]:
+            and st.targets[0].id not in _HANDLER_READS[0] and st.targets[0].id in _TREE_SAFE[0]:
         # a local that is only the test of the next `if`: the value is the test
         budget[0] -= 1
         return (('if', cx(st.value), rest[0][2], rest[0][3]),)
@@ -2265,6 +2458,69 @@ def _bubble_run(tree):
 
 
 _HANDLER_READS = [frozenset()]
+_TREE_SAFE = [frozenset()]
+
+
+def tree_safe_locals(func):
+    """Locals whose plain assignments may be replaced by their value at the places of use *within the canonical tree of the
+    statements that follow*: that tree ends where a loop body, the body of a try statement or the body of a with statement
+    ends, so every read of the local must lie inside the innermost such region of each of its assignments, after it."""
+    order = {}
+
+    shared = (ast.expr_context, ast.operator, ast.boolop, ast.unaryop, ast.cmpop)      # singletons: not positions
+
+    def number(n):
+        order[id(n)] = len(order)
+        for c in ast.iter_child_nodes(n):
+            if not isinstance(c, shared):
+                number(c)
+    number(func)
+    last = {}
+
+    def last_index(n):
+        if id(n) not in last:
+            last[id(n)] = max([order[id(n)]] + [last_index(c) for c in ast.iter_child_nodes(n) if not isinstance(c, shared)])
+        return last[id(n)]
+    loads, stores = {}, {}
+    for n in ast.walk(func):
+        if isinstance(n, ast.Name):
+            (loads if isinstance(n.ctx, ast.Load) else stores).setdefault(n.id, []).append(n)
+        elif isinstance(n, ast.ExceptHandler) and n.name:
+            stores.setdefault(n.name, []).append(n)
+    # region of every statement: the innermost enclosing loop body / loop else / try body / with body (a list of statements)
+    region = {}
+
+    def walk(stmts, reg):
+        for st in stmts:
+            region[id(st)] = reg
+            for field in ('body', 'orelse', 'finalbody'):
+                sub = getattr(st, field, None)
+                if isinstance(sub, list) and sub and isinstance(sub[0], ast.stmt):
+                    cut = isinstance(st, (ast.For, ast.AsyncFor, ast.While)) or isinstance(st, (ast.With, ast.AsyncWith)) or isinstance(st, ast.Try) and field == 'body'
+                    walk(sub, sub if cut else reg)
+            for h in getattr(st, 'handlers', []):
+                walk(h.body, reg)
+    walk(func.body, None)
+    assigns = {}
+    for n in ast.walk(func):
+        if isinstance(n, ast.Assign) and len(n.targets) == 1 and isinstance(n.targets[0], ast.Name):
+            assigns.setdefault(n.targets[0].id, []).append(n)
+    safe = set()
+    for name, sts in assigns.items():
+        ok = True
+        for st in sts:
+            reg = region.get(id(st))
+            if reg is None:
+                continue
+            lo, hi = last_index(st), last_index(reg[-1])
+            first = order[id(reg[0])]
+            for ld in loads.get(name, []):
+                k = order[id(ld)]
+                if not (lo < k <= hi) or k < first:
+                    ok = False
+        if ok:
+            safe.add(name)
+    return frozenset(safe)
 
 
 def _subst_const(tree, mark, const):
@@ -2477,6 +2733,25 @@ class _PropInline(ast.NodeTransformer):
         return node
 
 
+def module_dicts(tree):
+    """module-level names bound exactly once, to a dict display, and never declared global in a function"""
+    count, isdict = {}, set()
+    for st in tree.body:
+        tg = st.targets if isinstance(st, ast.Assign) else [st.target] if isinstance(st, (ast.AnnAssign, ast.AugAssign)) else []
+        for t in tg:
+            for n in ast.walk(t):
+                if isinstance(n, ast.Name):
+                    count[n.id] = count.get(n.id, 0) + 1
+        if isinstance(st, (ast.Assign, ast.AnnAssign)) and isinstance(st.value, ast.Dict) and len(tg) == 1 and isinstance(tg[0], ast.Name):
+            isdict.add(tg[0].id)
+        elif not isinstance(st, (ast.Assign, ast.AnnAssign, ast.AugAssign, ast.FunctionDef, ast.ClassDef, ast.Import, ast.ImportFrom, ast.Expr)):
+            for n in ast.walk(st):          # conditional / looping module code: any name stored there is not a plain constant
+                if isinstance(n, ast.Name) and isinstance(n.ctx, (ast.Store, ast.Del)):
+                    count[n.id] = count.get(n.id, 0) + 2
+    glob = {x for n in ast.walk(tree) if isinstance(n, ast.Global) for x in n.names}
+    return frozenset(d for d in isdict if count.get(d) == 1 and d not in glob)
+
+
 def module_constants(tree):
     """module-level names bound exactly once to a number / string / bytes / bool / None literal (or its negation)"""
     count, val = {}, {}
@@ -2504,17 +2779,20 @@ def module_constants(tree):
 
 
 _SIZED = [frozenset()]
+_DICTS = [frozenset()]      # module-level names bound once to a dict display and not shadowed in the function at hand
 _CLASS = [None]
 _NO_CLOSURES = [False, ()]
 
 
-def canonical(func, helpers=None, consts=None, sized=None, cls_name=None, props=None):
+def canonical(func, helpers=None, consts=None, sized=None, cls_name=None, props=None, dicts=None):
     """canonical form (text) of a function, or None if it cannot be built.
     helpers: name -> (FunctionDef, is_method) of functions that may be pasted into the body (those the other version of the
     module does not define)."""
     import re
     try:
-        saved = (_SIZED[0], _CLASS[0], _NO_CLOSURES[0], _NO_CLOSURES[1])
+        saved = (_SIZED[0], _CLASS[0], _NO_CLOSURES[0], _NO_CLOSURES[1], _DICTS[0])
+        _bound = set(_params(func)) | {n.id for n in ast.walk(func) if isinstance(n, ast.Name) and isinstance(n.ctx, (ast.Store, ast.Del))}
+        _DICTS[0] = frozenset(d for d in (dicts or ()) if d not in _bound)
         _SIZED[0] = frozenset(sized or ()) if sized is not None else _SIZED[0]
         _CLASS[0] = cls_name if cls_name is not None else _CLASS[0]
         f = copy.deepcopy(func)
@@ -2522,10 +2800,17 @@ def canonical(func, helpers=None, consts=None, sized=None, cls_name=None, props=
             n.__dict__.pop('_parent', None)
             n.__dict__.pop('_noops', None)
         counter = [0]
+        for _owner, _block in _all_blocks(f):
+            # annotations of statements inside a function are never evaluated
+            for _i, _st in enumerate(_block):
+                if isinstance(_st, ast.AnnAssign):
+                    _block[_i] = ast.copy_location(ast.Assign(targets=[_st.target], value=_st.value) if _st.value is not None else ast.Pass(), _st)
+                    ast.fix_missing_locations(_block[_i])
         if helpers:
             for _ in range(3):
                 usable = {k: v for k, v in helpers.items() if _simple_helper(v[0])}
                 x = inline_expression_helpers(f, helpers)
+                hoist_helper_calls(f, usable, counter)
                 y = inline_helpers(f, usable, counter)
                 if not (x or y):
                     break
@@ -2551,11 +2836,14 @@ def canonical(func, helpers=None, consts=None, sized=None, cls_name=None, props=
             h = loops_to_sum(f) or h
             h = try_keyerror_idioms(f) or h
             h = sink_into_branches(f) or h
+            h = fold_flag_reads(f) or h
             k = assignments_to_ifexp(f)
             m = return_of_assignment(f)
             n_ = enumerate_to_index(f)
             if not (a or b or c or d or e or g or h or k or m or n_):
                 break
+        _ExprRewrite().visit(f)         # once more: values that reached their place of use by substitution
+        ast.fix_missing_locations(f)
         if sink_constant_inits(f):
             for _ in range(3):
                 if not (inline_next_use(f) | inline_temps(f)):
@@ -2576,6 +2864,7 @@ def canonical(func, helpers=None, consts=None, sized=None, cls_name=None, props=
                     for s_ in part:
                         hr |= {n.id for n in ast.walk(s_) if isinstance(n, ast.Name)}
         _HANDLER_READS[0] = frozenset(hr)
+        _TREE_SAFE[0] = tree_safe_locals(f)
         tree = seq(f.body, FUNC_END, [60000])
         text = repr(tree)
         seen = {}
@@ -2591,6 +2880,6 @@ def canonical(func, helpers=None, consts=None, sized=None, cls_name=None, props=
         return None
     finally:
         try:
-            _SIZED[0], _CLASS[0], _NO_CLOSURES[0], _NO_CLOSURES[1] = saved
+            _SIZED[0], _CLASS[0], _NO_CLOSURES[0], _NO_CLOSURES[1], _DICTS[0] = saved
         except NameError:
             pass
